@@ -1666,7 +1666,7 @@ class Interp:
         for k in range(limit):
             if not cur:
                 return exits
-            if len(cur) > self.K:
+            if len(cur) > 6:
                 break
             nxt = []
             for s in cur:
